@@ -79,7 +79,11 @@ impl Prop for C11 {
         }
         let single = graph_strategy(&SINGLE_KINDS, 0, 10, dense, &[0, 1, 1, 3], 3);
         let multi = graph_strategy(&[2, 3, 6, 7], 0, 6, dense, &[0, 1], 2);
-        (prop_oneof![12 => single, 1 => multi], prop_oneof![2 => Just(0u32), 3 => any::<u32>()], any::<bool>())
+        fn medium(n: usize) -> usize {
+            n * 3
+        }
+        let larger = graph_strategy(&SINGLE_KINDS, 11, 24, medium, &[0, 1], 3);
+        (prop_oneof![12 => single, 1 => multi, 1 => larger], prop_oneof![2 => Just(0u32), 3 => any::<u32>()], any::<bool>())
             .prop_map(|(g, subset, count_zeros)| ClusterCase { g, subset, count_zeros })
             .boxed()
     }
